@@ -1,7 +1,7 @@
 (* C08 -- request size limits are enforced exactly, early, and cannot be bypassed. *)
 From Coq Require Import String.
 From Http Require Import Model.Bytes Model.Num Model.Headers Model.Request Spec.Delivery
-     Proofs.ReqResume Proofs.Safety Proofs.Limits.
+     Proofs.ReqResume Proofs.Safety Proofs.Limits Proofs.LimitsNone.
 
 (* defaults (compared with Request::new() on every run) *)
 Example C08_defaults :
@@ -62,6 +62,32 @@ Theorem C08_none_disables_only_request_line_limit :
     req_dispatch uri uri_parse (with_rl cfg None) st buf = req_dispatch uri uri_parse cfg st buf.
 Proof. exact no_request_line_limit. Qed.
 Print Assumptions C08_none_disables_only_request_line_limit.
+
+(* the same at the level of Request::parse, for each of the three limits: a call that is not
+   answered with that limit's rejection gives the same answer and the same state without it.
+   With None the limit can never be the reason of a rejection (over_limit _ None = false,
+   count_bytes / presented_ok with no maximum always pass), so together: None disables exactly
+   that limit and no other. *)
+Theorem C08_none_request_line_limit :
+  forall (uri : Type) (uri_parse : bytes -> option uri) cfg (st : req_state uri) buf,
+    snd (req_parse uri uri_parse cfg st buf) <> Reject ERequestLineTooLong ->
+    req_parse uri uri_parse (with_rl cfg None) st buf = req_parse uri uri_parse cfg st buf.
+Proof. exact no_request_line_limit_parse. Qed.
+Print Assumptions C08_none_request_line_limit.
+
+Theorem C08_none_header_line_limit :
+  forall (uri : Type) (uri_parse : bytes -> option uri) cfg (st : req_state uri) buf,
+    snd (req_parse uri uri_parse cfg st buf) <> Reject (EHeaders HTooLong) ->
+    req_parse uri uri_parse (with_hl cfg None) st buf = req_parse uri uri_parse cfg st buf.
+Proof. exact no_header_line_limit. Qed.
+Print Assumptions C08_none_header_line_limit.
+
+Theorem C08_none_max_message_size :
+  forall (uri : Type) (uri_parse : bytes -> option uri) cfg (st : req_state uri) buf,
+    snd (req_parse uri uri_parse cfg st buf) <> Reject EMessageTooLong ->
+    req_parse uri uri_parse (with_mm cfg None) st buf = req_parse uri uri_parse cfg st buf.
+Proof. exact no_max_message_size. Qed.
+Print Assumptions C08_none_max_message_size.
 
 (* exactness at the boundary values, each limit at "exact" and "exact - 1" *)
 Definition idp (b : bytes) : option bytes := Some b.
